@@ -78,6 +78,10 @@ func runPairCase(r *fw.Run, p *Pair, prop string, c *pairCase, framing bool) int
 	defer cancel()
 	conn, err := p.Connect(ctx)
 	if err != nil {
+		if prop == "C03" && p.reachable() {
+			report("transport-unusable", fmt.Sprintf("a listener accepts raw connections at %s but the client could not connect: %v", p.ClientAddr(), err))
+			return viol
+		}
 		r.Inconclusive("%s: connect: %v", c.Transport, err)
 		return 0
 	}
